@@ -44,6 +44,20 @@ def impl_checks(ctx, cases):
             if "field" not in sh:
                 bad("shifted time grid makes the simulation fail", c2, dict(shift=shift, error=sh.get("error")))
                 continue
+            # the lookup built from a shifted run: the stored recovery at the (shifted) simulated times, 0 before the first, the final
+            # value after the last - evaluated at times computed independently of the array that was handed to simulate, which must
+            # come back unchanged
+            rf_s = np.array(sh["res"].recovery_factor(), float)
+            its = sh["res"].recovery_factor_interpolator()
+            ts = t + shift
+            at_s = np.asarray(its(ts), float)
+            b_s, a_s = float(its(ts[0] - 1.0)), float(its(ts[-1] + 1.0 + abs(ts[-1]) * 1e-9))
+            ev += 1
+            if not np.array_equal(sh["time_arg"], ts):
+                bad("the caller's time array is modified by simulate / recovery_factor / recovery_factor_interpolator", c2, dict(shift=shift, max_change=float(np.abs(sh["time_arg"] - ts).max())))
+            if not np.allclose(at_s, rf_s, rtol=1e-12, atol=1e-15) or b_s != 0.0 or a_s != float(rf_s[-1]):
+                bad("recovery interpolator of a run on a shifted time grid does not reproduce recovery at the simulated times / 0 before / final value after", c2,
+                    dict(shift=shift, max_node_diff=float(np.abs(at_s - rf_s).max()), before=b_s, after=a_s, final=float(rf_s[-1])))
             d = float(np.abs(sh["field"] - base["field"]).max())
             dr = float(np.abs(sh["rf"] - base["rf"]).max())
             if d > tol or dr > tol * max(1.0, t[-1] / dtmin):
@@ -91,6 +105,8 @@ def impl_checks(ctx, cases):
         at_nodes = np.asarray(it(t), float)
         before = float(it(t[0] - 1.0 - abs(t[0])))
         after = float(it(t[-1] * 2 + 10.0))
+        if not np.array_equal(base["time_arg"], t):
+            bad("the caller's time array is modified by simulate / recovery_factor / recovery_factor_interpolator", c, dict(max_change=float(np.abs(base["time_arg"] - t).max())))
         if not np.allclose(at_nodes, rf, rtol=1e-12, atol=1e-15) or before != 0.0 or after != float(rf[-1]):
             bad("recovery interpolator does not reproduce recovery at the simulated times / 0 before / final value after", c,
                 dict(max_node_diff=float(np.abs(at_nodes - rf).max()), before=before, after=after, final=float(rf[-1])))
